@@ -1139,8 +1139,25 @@ def syn_inline_new_helpers(S):
                             if is_call(n) and len(n.get("args") or []) == len(params):
                                 args = n["args"]
                                 line = n.get("line", 0)
-                                stmts = [{"s": "let", "line": line, "pat": {"p": "ident", "name": pn, "ref": False, "mut": False, "sub": None}, "init": a, "else": None} for pn, a in zip(params, args)]
                                 body = json.loads(json.dumps(h["body"]))
+                                # a closure handed to the helper and called there (`fn scoped(&mut self, cb: impl FnOnce(&mut Self)) { ..; cb(self); .. }`)
+                                # is substituted at that call, so its code sits where it runs
+                                bound = []
+                                for pn, a in zip(params, args):
+                                    if isinstance(a, dict) and a.get("e") == "closure":
+                                        sites = [x for x in walk_expr(body) if x.get("e") == "call" and (x.get("f") or {}).get("e") == "path" and x["f"].get("p") == pn]
+                                        if len(sites) == 1 and len(sites[0].get("args") or []) == len(a.get("args") or []):
+                                            cs = sites[0]
+                                            cl_stmts = []
+                                            for cp, ca in zip(a.get("args") or [], cs.get("args") or []):
+                                                cl_stmts.append({"s": "let", "line": line, "pat": cp if isinstance(cp, dict) else {"p": "ident", "name": str(cp), "ref": False, "mut": False, "sub": None}, "init": ca, "else": None})
+                                            cb = a.get("body")
+                                            cl_stmts += cb.get("stmts", []) if isinstance(cb, dict) and cb.get("e") == "block" else [{"s": "expr", "line": line, "semi": False, "e": cb}]
+                                            cs.clear()
+                                            cs.update({"e": "block", "line": line, "end": line, "stmts": cl_stmts, "inl": "closure:" + pn})
+                                            continue
+                                    bound.append((pn, a))
+                                stmts = [{"s": "let", "line": line, "pat": {"p": "ident", "name": pn, "ref": False, "mut": False, "sub": None}, "init": a, "else": None} for pn, a in bound]
                                 stmts += body.get("stmts", []) if body.get("e") == "block" else [{"s": "expr", "line": line, "semi": False, "e": body}]
                                 n.clear()
                                 n.update({"e": "block", "line": line, "end": line, "stmts": stmts, "inl": h["name"]})
